@@ -1,6 +1,6 @@
-from . import evaluate, numeric, structure, reduce, symbolic, wrappers
+from . import evaluate, numeric, structure, reduce, symbolic, wrappers, frame
 
-MODULES = [evaluate, numeric, structure, reduce, symbolic, wrappers]
+MODULES = [evaluate, numeric, structure, reduce, symbolic, wrappers, frame]
 
 
 def all_specs(prog, tier):
